@@ -3,7 +3,8 @@ Theorems: coq/Properties_C02_calc2.v over the Calc2 model (operation-state lifet
 every expression and script). Tie: K2v2 — the real algorithms over leaves whose operation states log their
 destruction, operation state in 0xAB-poisoned storage, plus the direct life-cycle monitor on the implementation
 trace. (Self-owning heap operations: C09; cancel wrappers: C19; streams: C13.)"""
-import k2v2
+import re
+import k2v2, vlib
 LEVEL = "proof"
 def run(chk, replay=None):
     chk.cov["trusted_base"] = [
@@ -14,4 +15,70 @@ def run(chk, replay=None):
         "tracked); throwing copies/connect/allocation are not in the model (callable throws are)"]
     chk.cov["rule"] = "K2v2: generated expressions x scripts; non-trivial = script with a stop or a non-value completion"
     chk.prove()
+    fault_probe(chk)
     k2v2.standard_k2v2(chk)
+
+
+def _expect(name, k):
+    """what the documentation promises for probe <name> when the k-th connect() of the source throws (k = 0: never)"""
+    kind, script = name.split("_", 1)
+    if kind == "repeat":
+        rounds, script = (3, "v") if script == "3" else (4, script)
+    connects, starts, n = 0, 0, 0
+    connects += 1
+    if connects == k:
+        return "-", 1      # the first connect throws out of connect()
+    while True:
+        o = script[min(starts, len(script) - 1)]
+        starts += 1
+        if kind == "retry":
+            if o in "vd":
+                return o, 0
+        else:
+            if o in "ed":
+                return o, 0
+            n += 1
+            if n >= rounds:
+                return "v", 0
+        connects += 1
+        if connects == k:
+            return "e", 0
+
+
+def fault_probe(chk):
+    """harness/k3_c02_probe.cpp: the k-th connect() of the source throws under retry_when / repeat_effect_until (the re-connecting
+    algorithms): construction/destruction balance of the source's operation states, no destructor on a dead or never constructed
+    object, the documented completion - evaluated directly on the real code."""
+    exe, err = vlib.build_driver("k3_c02_probe", "plain17")
+    if err:
+        p = chk.replay_file("c02probe_build", {"kind": "build-failure", "error": err[-3000:]})
+        chk.violation("c02probe/build", p, no_input=True, text="k3_c02_probe does not compile against /repo")
+        return
+    rc, out = vlib.sh([exe], timeout=120)
+    n = 0
+    for l in out.splitlines():
+        m = re.match(r"(\S+) k=(\d+) completion=(.) connects=(\d+) ctor=(\d+) dtor=(\d+) dead_dtor=(\d+) live_end=(\d+) threw_out=(\d)", l)
+        if not m:
+            continue
+        n += 1
+        name, k, comp = m.group(1), int(m.group(2)), m.group(3)
+        ctor, dtor, dead, live, threw = (int(m.group(i)) for i in (5, 6, 7, 8, 9))
+        chk.count("c02probe:%s:%d" % (name, k), k > 0)
+        wc, wt = _expect(name, k)
+        why = None
+        if dead:
+            why = "%d destructor call(s) on an operation state that was not alive (destroyed twice or never constructed)" % dead
+        elif live or ctor != dtor:
+            why = "operation states constructed=%d destroyed=%d still alive=%d" % (ctor, dtor, live)
+        elif (comp, threw) != (wc, wt):
+            why = "completion=%s threw_out=%d, documented completion=%s threw_out=%d" % (comp, threw, wc, wt)
+        if why:
+            p = chk.replay_file("c02probe_%s_%d" % (name, k), {"kind": "fault-probe", "probe": name, "k": k, "line": l, "why": why,
+                                                             "replay": exe + " | grep '%s k=%d'" % (name, k)})
+            chk.violation("c02probe/%s/k%d" % (name, k), p, text="%s with the %d-th connect throwing: %s" % (name, k, why))
+        else:
+            chk.cov["traces_validated_against_impl"] += 1
+    if rc != 0 or "END" not in out or n < 20:
+        p = chk.replay_file("c02probe_run", {"kind": "probe-crash", "rc": rc, "out": out[-2000:], "replay": exe})
+        chk.violation("c02probe/crash", p, text="fault probe program failed rc=%d after %d probes" % (rc, n))
+    chk.cov["fault_probes"] = n
